@@ -485,6 +485,18 @@ func rulePair(w *World, r *Report) {
 			continue
 		}
 		gotAnd, gotOr := map[int64]bool{}, map[int64]bool{}
+		// isBoolOpNode(p) == isAndOpNode(p) || isOrOpNode(p) (R-PAIRBOOL): under it, "not and" means "or"
+		boolAtoms := func(fs []Fact) []string {
+			var out []string
+			for _, f := range fs {
+				if c, callee := staticCallee(f.Cond); c != nil && callee != nil && callee.Name() == "isBoolOpNode" && f.Truth {
+					out = append(out, "bool=T")
+				}
+			}
+			return out
+		}
+		isAnd := func(facts []string) bool { return hasAll(facts, "and=T") || hasAll(facts, "bool=T", "or=F") }
+		isOr := func(facts []string) bool { return hasAll(facts, "or=T") || hasAll(facts, "bool=T", "and=F") }
 		EachInstr(fn, func(in ssa.Instruction) {
 			bo, ok := in.(*ssa.BinOp)
 			if !ok || bo.Op != token.OR {
@@ -494,11 +506,11 @@ func rulePair(w *World, r *Report) {
 			if !okc {
 				return
 			}
-			facts := proxyFacts(bo.Block())
-			if hasAll(facts, "and=T") {
+			facts := append(proxyFacts(bo.Block()), boolAtoms(factsAt(bo.Block()))...)
+			if isAnd(facts) {
 				gotAnd[c] = true
 			}
-			if hasAll(facts, "or=T") {
+			if isOr(facts) {
 				gotOr[c] = true
 			}
 		})
@@ -514,7 +526,7 @@ func rulePair(w *World, r *Report) {
 					continue
 				}
 				pred := p.Block().Preds[i]
-				facts := proxyFacts(pred)
+				facts := append(proxyFacts(pred), boolAtoms(factsAt(pred))...)
 				for _, f := range factsAtEdgeTo(pred, p.Block()) {
 					if a := proxyAtom(f.Cond); a != "" {
 						if f.Truth {
@@ -524,10 +536,10 @@ func rulePair(w *World, r *Report) {
 						}
 					}
 				}
-				if hasAll(facts, "and=T") {
+				if isAnd(facts) {
 					gotAnd[c] = true
 				}
-				if hasAll(facts, "or=T") {
+				if isOr(facts) {
 					gotOr[c] = true
 				}
 			}
